@@ -40,6 +40,13 @@ def _matches_finding(o: OB.Obligation, f: dict, prop: str) -> bool:
     return any(o.oid == p or o.oid.startswith(p) for p in f.get("obligations", []))
 
 
+def _pid_of(o) -> str:
+    for p in sorted(PROOFS, key=len, reverse=True):
+        if o.oid.startswith(p + "/"):
+            return p
+    return o.oid.split("/", 1)[0]
+
+
 def write_replay(prop: str, o: OB.Obligation, results_by_pid: Dict[str, ProofResult]) -> (str, bool):
     """Write the replay file for a refuted obligation. Returns (path, reproduced_natively)."""
     os.makedirs(os.path.join(REPL, prop), exist_ok=True)
@@ -60,10 +67,15 @@ def write_replay(prop: str, o: OB.Obligation, results_by_pid: Dict[str, ProofRes
     try:
         if pid and m is not None:
             conc = {d.name(): m[d] for d in m.decls() if d.arity() == 0}
-            r2 = PROOFS[pid].run(concrete=conc)
-            OB.solve_all(r2.obls, nproc=1, timeout_s=30)
+            import inspect
+            if "only" in inspect.signature(PROOFS[pid].run).parameters:
+                r2 = PROOFS[pid].run(concrete=conc, only=o.oid)
+            else:
+                r2 = PROOFS[pid].run(concrete=conc)
             label = o.meta.get("label")
-            failing = [x for x in r2.obls if x.meta.get("label") == label and x.verdict == "refuted"]
+            same = [x for x in r2.obls if x.meta.get("label") == label]
+            OB.solve_all(same, nproc=1, timeout_s=30)
+            failing = [x for x in same if x.verdict == "refuted"]
             stubs = PROOFS[pid].calls
             native = {"mode": "the real function re-executed by CPython on the model's concrete inputs"
                               + (" (callees %s replaced by contract-conforming stubs returning the model's values)" % stubs
@@ -108,6 +120,9 @@ def finish(chk, tier: str, seed: int, results: List[ProofResult], obls: List[OB.
     violations = 0
     known_hits = Counter()
     by_pid = {r.pid: r for r in results}
+    MAX_FULL, MAX_PER_PROOF = 8, 2
+    full_done = Counter()
+    others = []
     for o in refuted:
         hit = None
         for f in known:
@@ -117,11 +132,24 @@ def finish(chk, tier: str, seed: int, results: List[ProofResult], obls: List[OB.
         if hit:
             known_hits[hit["id"]] += 1
             continue
-        path, repro = write_replay(prop, o, by_pid)
         violations += 1
+        pid = _pid_of(o)
+        if sum(full_done.values()) >= MAX_FULL or full_done[pid] >= MAX_PER_PROOF:
+            others.append(o)
+            continue
+        full_done[pid] += 1
+        path, repro = write_replay(prop, o, by_pid)
         lines.append("VIOLATION property=%s replay=%s%s" % (prop, os.path.relpath(path, ROOT),
                                                            "" if repro else " no-failing-input-found"))
         lines.append("  failed obligation: %s  (%s, %s, %s)" % (o.oid, o.kind, o.func, o.where))
+    if others:
+        os.makedirs(os.path.join(REPL, prop), exist_ok=True)
+        path = os.path.join(REPL, prop, "_further_refuted_obligations.json")
+        with open(path, "w") as f:
+            json.dump([{"obligation": o.oid, "kind": o.kind, "function": o.func, "where": o.where,
+                        "backend": o.backend, "smt2_head": o.smt2[:2000]} for o in others], f, indent=1)
+        lines.append("VIOLATION property=%s replay=%s no-failing-input-found" % (prop, os.path.relpath(path, ROOT)))
+        lines.append("  %d further refuted obligations (models not extracted; first: %s)" % (len(others), others[0].oid))
     for v in extra.get("violations", []):       # violations found by bounded stand-ins / structural comparisons
         violations += 1
         lines.append("VIOLATION property=%s replay=%s%s" % (prop, v["replay"], "" if v.get("reproduced") else
@@ -197,9 +225,11 @@ def write_evidence(chk, tier, seed, results, obls, wall, violations, known_hits,
                         "verdict": o.verdict, "backend": o.backend, "time_s": round(o.time_s, 3),
                         "smt2_head": o.smt2[:1200]})
     assumed = sorted({a for r in results for a in (PROOFS[r.pid].assumes if r.pid in PROOFS else [])})
+    n_known = sum(known_hits.values())
     cov = {
-        "obligations": len(obls),
+        "obligations": len(obls) - n_known,
         "discharged": n_ok,
+        "obligations_refuted_and_attributed_to_open_known_findings": n_known,
         "checker_cmd": "bin/vcheck %s --tier %s" % (prop, tier),
         "trusted_base": chk.trusted_base,
         "obligations_generic": len(generic),
